@@ -1,7 +1,7 @@
 (* Extraction of the executable models (ExtrOcamlBasic only). *)
 From Coq Require Import ZArith List Extraction ExtrOcamlBasic.
 From C15 Require Version Arr MultiMap Table.
-From C15 Require Gen_VersionKeeper Gen_ArrayIndexIterator Gen_ArrayShifter Gen_ArrayGuards Gen_MultiMapGuards Gen_SelectionGuards Gen_TableGuards Gen_TreeIterator Gen_SegmentedArrayGuards.
+From C15 Require Gen_VersionKeeper Gen_ArrayIndexIterator Gen_ArrayShifter Gen_ArrayGuards Gen_MultiMapGuards Gen_SelectionGuards Gen_TableGuards Gen_TreeIterator Gen_SegmentedArrayGuards Gen_DataRawIterator.
 Separate Extraction Version.run_out Version.init Version.getc
   Arr.arun_out Arr.ainit MultiMap.mrun_out MultiMap.minit Table.trun_out Table.tinit
   Gen_VersionKeeper.Check_self Gen_VersionKeeper.Check_cont Gen_ArrayIndexIterator.op_add_assign Gen_ArrayIndexIterator.op_arrow
@@ -9,4 +9,5 @@ Separate Extraction Version.run_out Version.init Version.getc
   Gen_ArrayGuards.InsertN_guard Gen_MultiMapGuards.RemoveKI_guard Gen_SelectionGuards.SelRemove_guard Gen_SelectionGuards.SelIndex_guard
   Gen_TableGuards.Row_guard Gen_TableGuards.TryInsert_guard Gen_TableGuards.TryUpdateNum_guard
   Gen_TreeIterator.Inc_guard Gen_TreeIterator.Arrow_guard
-  Gen_SegmentedArrayGuards.SegIndex_guard Gen_SegmentedArrayGuards.SegRemoveBack_guard Gen_SegmentedArrayGuards.SegInsertN_guard.
+  Gen_SegmentedArrayGuards.SegIndex_guard Gen_SegmentedArrayGuards.SegRemoveBack_guard Gen_SegmentedArrayGuards.SegInsertN_guard
+  Gen_DataRawIterator.raw_add_assign Gen_DataRawIterator.raw_arrow.
